@@ -55,6 +55,10 @@ P = {
   "sklearn's trees are replaced by a recorder. (i) Over 2-3 call histories of get_ball_tree / get_kd_tree with symbolic (element kind, coordinate system, metric, reconstruct) the tree handed back was built from the requested element kind's arrays in the requested system ((lat,lon) radians or xyz) with the requested metric. (ii) With symbolic query points, k and radius: the columns handed to sklearn are the query point in the order and unit of the tree's own columns, the radius is converted to radians exactly when the tree is spherical and in_radians=False, returned distances are converted back likewise, row i answers query i (squeeze for single points), k outside 1..n and negative radii raise.",
   "Outside the claim: that sklearn's search returns the true k nearest / radius set (compiled code) - and with it the antimeridian/pole clause, which follows from the metric being haversine/chord if sklearn is right. Candidates are replayed on the real sklearn trees and judged by a brute-force search under the tree's metric. Bounds: 5-node grid, 1-2 query points, k in 0..7, 4 tree configurations.",
   "DESIGN.md §2 C11"),
+ "C12": (True,
+  "sklearn's tree is a recorder returning symbolic neighbour indices and ascending non-negative distances. For nearest-neighbour remapping z3 shows that the source tree is built from the element kind the data live on (also on grids where n_node = n_face, and after an earlier remap of another kind with the same options), in the requested coordinate type; that the query points are the destination elements of remap_to; that dest[..., j] = src[..., nearest(j)] for every leading index; output dims and grid. For inverse-distance weighting (real code, symbolic distances): the result lies between min and max of the k neighbours, constants are reproduced, and for k = 2 the result is the 1/(d^p+1e-6)-weighted normalised sum with positive weights non-increasing in distance (z3 nlsat).",
+  "Outside: that sklearn's query returns the true nearest sources (as C11). Weight monotonicity in closed form is decided for k = 2, powers 1..3; for k = 3 (power 1) only convexity and constants (nlsat unknown beyond). Candidates are judged by a replay on real grids with a tie-tolerant brute-force great-circle search, and for IDW by reading the weights back with indicator fields. Bounds: source grids 'mixed' (3 faces/6 nodes/8 edges) and 'tetra' (n_face = n_node), destination 2 faces/5 nodes/6 edges, leading dims up to (2,2).",
+  "DESIGN.md §2 C12"),
 }
 NA = {
  "C10": "Quantifies over arbitrary compositions of xarray's own operations; whether the grid survives is decided inside xarray/numpy C-level dispatch which symbolic values cannot cross, and there is no bounded uxarray kernel to encode (DESIGN.md §4).",
